@@ -48,7 +48,7 @@ type c13Case struct {
 
 func genC13(r *sim.Rng) *c13Case {
 	c := &c13Case{}
-	c.Variant = r.Pick([]string{"commands", "commands", "each", "fromfile", "netconfigs", "netconfig", "netcommands"})
+	c.Variant = r.Pick([]string{"commands", "commands", "each", "fromfile", "netconfigs", "netconfig", "netcommands", "netcommandsfile", "netconfigsfile"})
 	c.Stop = r.Bool()
 	nd := r.Intn(4)
 	for i := 0; i < nd; i++ {
@@ -226,6 +226,15 @@ func runC13Case(id string, c *c13Case) {
 		m, err = d.SendCommands(c.Cmds, opts...)
 	case "netcommands":
 		m, err = nd.SendCommands(c.Cmds, opts...)
+	case "netcommandsfile", "netconfigsfile":
+		f := filepath.Join(workDir(), id+".lines")
+		_ = os.WriteFile(f, []byte(strings.Join(c.Cmds, "\n")+"\n"), 0o644)
+		if c.Variant == "netcommandsfile" {
+			m, err = nd.SendCommandsFromFile(f, opts...)
+		} else {
+			m, err = nd.SendConfigsFromFile(f, append(opts, opoptions.WithPrivilegeLevel("privilege-exec"))...)
+		}
+		_ = os.Remove(f)
 	case "netconfigs":
 		m, err = nd.SendConfigs(c.Cmds, append(opts, opoptions.WithPrivilegeLevel("privilege-exec"))...)
 	case "netconfig":
